@@ -87,9 +87,9 @@ static void genOps(const RDom& d, std::vector<Opn>& out) {
             add(OP_APPENDDATA, t);
             for (int off = 0; off <= len + 1; off++) {
                 add(OP_INSERTDATA, t, -1, -1, off);
-                for (int w = 0; w < 4; w++) add(OP_DELETEDATA, t, -1, -1, off, w);
-                for (int w = 0; w < 3; w++) add(OP_REPLACEDATA, t, -1, -1, off, w);
-                for (int w = 0; w < 4; w++) add(OP_SUBSTRING, t, -1, -1, off, w);
+                for (int w = 0; w < 4; w++) add(OP_DELETEDATA, t, -1, -1, off, countChoice(w, len));
+                for (int w = 0; w < 3; w++) add(OP_REPLACEDATA, t, -1, -1, off, countChoice(w, len));
+                for (int w = 0; w < 4; w++) add(OP_SUBSTRING, t, -1, -1, off, countChoice(w, len));
                 if (T.type == TEXT) add(OP_SPLIT, t, -1, -1, off);
             }
             if (T.type == TEXT) for (int v = 0; v < 2; v++) add(OP_RWT, t, -1, -1, v);
@@ -108,7 +108,6 @@ static std::string nodeStr(const RDom& d, int id) {
 static std::string q(const char* s) { return s == NULLSTR ? "null" : "'" + std::string(s) + "'"; }
 static std::string opStr(const RDom& d, const Opn& o) {
     std::string s = nodeStr(d, o.t) + "." + OpName[o.code] + "(";
-    int len = (o.t >= 0 && o.t < (int)d.n.size()) ? (int)d.n[o.t].data.size() : 0;
     switch (o.code) {
     case OP_APPEND: case OP_REMOVE: case OP_ADOPT: case OP_SETATTRNODE: case OP_REMATTRNODE: case OP_SETATTRNODENS: s += nodeStr(d, o.a); break;
     case OP_INSERT: case OP_REPLACE: s += nodeStr(d, o.a) + ", " + nodeStr(d, o.b); break;
@@ -125,8 +124,8 @@ static std::string opStr(const RDom& d, const Opn& o) {
     case OP_REMATTRNS: s += q(V_REMATTRNS[o.v].ns) + ", " + q(V_REMATTRNS[o.v].qn); break;
     case OP_APPENDDATA: s += "'d'"; break;
     case OP_INSERTDATA: s += std::to_string(o.v) + ", 'd'"; break;
-    case OP_DELETEDATA: case OP_SUBSTRING: s += std::to_string(o.v) + ", " + std::to_string(countChoice(o.w, len)); break;
-    case OP_REPLACEDATA: s += std::to_string(o.v) + ", " + std::to_string(countChoice(o.w, len)) + ", 'd'"; break;
+    case OP_DELETEDATA: case OP_SUBSTRING: s += std::to_string(o.v) + ", " + std::to_string(o.w); break;
+    case OP_REPLACEDATA: s += std::to_string(o.v) + ", " + std::to_string(o.w) + ", 'd'"; break;
     case OP_SPLIT: s += std::to_string(o.v); break;
     case OP_RWT: s += q(V_RWT[o.v]); break;
     }
@@ -137,15 +136,17 @@ static std::string opStr(const RDom& d, const Opn& o) {
 // A defect listed here is first probed with its witness history in a forked sandbox.  While it still manifests it is reported
 // as a violation of its own kind and every transition matching `match` is skipped (counted) so that the worker processes survive
 // and the rest of the space can be explored; once the library is repaired the probe stops manifesting and the skip disappears.
+static Opn mkOp(int code, int t, int a = -1, int b = -1, int v = 0, int w = 0) { Opn o; o.code = code; o.t = t; o.a = a; o.b = b; o.v = v; o.w = w; return o; }
+static Opn noOp() { Opn o; o.code = -1; return o; }
 struct KnownDefect {
     const char* id;
     const char* what;
     bool (*match)(const RDom&, const Opn&);
-    Opn witness;         // executed on the initial universe
+    Opn witness;         // executed on the initial universe (after `pre`, when given)
+    Opn pre = noOp();
     bool active = false;
     std::string observed;
 };
-static Opn mkOp(int code, int t, int a = -1, int b = -1, int v = 0, int w = 0) { Opn o; o.code = code; o.t = t; o.a = a; o.b = b; o.v = v; o.w = w; return o; }
 static std::vector<KnownDefect> KNOWN_DEFECTS = {
     {"fragment-self-insert-hang",
      "fragment.appendChild/insertBefore/replaceChild(fragment itself) with a non-empty fragment never returns: DOMParentNode::insertBefore does not "
@@ -161,13 +162,33 @@ static std::vector<KnownDefect> KNOWN_DEFECTS = {
     {"substringData-count-overflow",
      "CharacterData.substringData(offset, count) with count larger than 4095 writes newString[count] beyond the 4096-unit stack buffer "
      "(DOMCharacterDataImpl::substringData does not clamp count to length-offset)",
-     [](const RDom&, const Opn& o) { return o.code == OP_SUBSTRING && o.w == 3; },
-     mkOp(OP_SUBSTRING, 3, -1, -1, 0, 3)},
+     [](const RDom&, const Opn& o) { return o.code == OP_SUBSTRING && o.w >= 4096; },
+     mkOp(OP_SUBSTRING, 3, -1, -1, 0, BIGCOUNT)},
     {"setTextContent-null-chardata-ub",
      "Text/Comment.setTextContent(null) (documented as allowed: 'if the new string is not empty or null') reaches DOMBuffer::set(NULL) which calls "
      "memcpy(dst, NULL, 0): undefined behaviour reported by UBSan (nonnull attribute), DOMStringPool.hpp DOMBuffer::set(const XMLCh*)",
      [](const RDom& d, const Opn& o) { return o.code == OP_SETTEXT && o.v == 2 && (d.n[o.t].type == TEXT || d.n[o.t].type == COMMENT); },
      mkOp(OP_SETTEXT, 3, -1, -1, 2)},
+    {"replaceWholeText-no-element-parent-crash",
+     "Text.replaceWholeText(non-empty) on a text node whose backwards walk (TreeWalker.previousNode) ends on an Attr or DocumentFragment parent: "
+     "DOMTextImpl::replaceWholeText takes that parent as 'first text node' and calls pFirstTextNode->getParentNode()->insertBefore() on a null parent",
+     [](const RDom& d, const Opn& o) {
+         if (o.code != OP_RWT || o.v != 0) return false;
+         int docEl = -1; for (int k : d.n[d.n[o.t].doc].kids) if (d.n[k].type == EL && docEl < 0) docEl = k;
+         if (docEl < 0) return false;                           // NOT_SUPPORTED_ERR is raised before anything else
+         int cur = o.t, first = o.t;
+         for (int guard = 0; guard < 100; guard++) {            // DOMTreeWalkerImpl::previousNode with SHOW_ALL
+             if (cur == docEl) break;
+             int p = d.n[cur].parent, n = -1;
+             if (p >= 0) { const auto& k = d.n[p].kids; for (size_t i = 1; i < k.size(); i++) if (k[i] == cur) n = k[i - 1]; }
+             if (n >= 0) { while (!d.n[n].kids.empty()) n = d.n[n].kids.back(); } else n = p;
+             if (n < 0) break;
+             if (d.n[n].type == EL || d.n[n].type == COMMENT) break;
+             first = n; cur = n;
+         }
+         return d.n[first].type == ATTR || d.n[first].type == FRAG;
+     },
+     mkOp(OP_RWT, 5, -1, -1, 0), mkOp(OP_APPEND, 7, 5)},
 };
 static const char* skipDefect(const RDom& d, const Opn& o) {
     for (auto& k : KNOWN_DEFECTS) if (k.active && k.match(d, o)) return k.id;
@@ -223,28 +244,46 @@ static std::string firstDiff(const std::string& a, const std::string& b) {
     return "";
 }
 
-static void step(World& w, const std::string& key0, const Opn& op, Trans& tr) {
-    Ref saved = w.ref;
-    size_t oldN = saved.d.n.size();
+// key0 / sig0: canonical key and quick signature of the state the world is in before the call
+static void step(World& w, const std::string& key0, uint64_t sig0, const Opn& op, Trans& tr) {
     std::string opn = OpName[op.code];
-    Expect e; w.ref.apply(op, e);
+    // pre-state facts used for root-cause names
+    bool treeOp = op.code == OP_APPEND || op.code == OP_INSERT || op.code == OP_REPLACE;
+    bool selfInsert = treeOp && op.a == op.t;
+    bool rootReinsert = false, fragIntoDoc = false;
+    { const RDom& d0 = w.ref.d; rootReinsert = treeOp && d0.n[op.t].type == DOC && op.a >= 0 && d0.n[op.a].type == EL && d0.n[op.a].parent == op.t;
+      fragIntoDoc = treeOp && d0.n[op.t].type == DOC && op.a >= 0 && d0.n[op.a].type == FRAG; }
+    size_t oldN = w.ref.d.n.size();
+    Expect e;
+    bool applied = false;
+    Ref saved;                       // copy of the model, only taken when the call may succeed
+    if (!(w.ref.treeOpErrors(op, e.errs) && e.mustFail())) {
+        e = Expect();
+        saved = w.ref;
+        w.ref.apply(op, e);
+        applied = true;
+    }
     tr.expected = errSet(e);
     Outcome o; execImpl(w, op, o);
     tr.exc = o.code;
     tr.observed = o.code == 0 ? "success" : (o.code < 0 ? "foreign exception: " + o.what : std::string(codeName(o.code)));
-    auto viol = [&](const std::string& kind, const std::string& detail) { tr.res = Trans::VIOL; tr.dirty = true; tr.kind = kind; tr.detail = detail; };
+    auto viol = [&](const std::string& kind, const std::string& detail) {
+        tr.res = Trans::VIOL; tr.dirty = true; tr.kind = kind; tr.detail = detail;
+        if (selfInsert && (o.code == 0 || kind.find("state-changed") != std::string::npos)) tr.kind = "self-insert-accepted";
+        else if (fragIntoDoc && o.code == HIERARCHY_REQUEST_ERR && kind.find("state-changed") != std::string::npos) tr.kind = "document-fragment-partial-insert";
+        else if (op.code == OP_REPLACE && op.b == -1 && kind.find("state-changed") != std::string::npos) tr.kind = "replaceChild-null-oldChild-modifies-then-throws";
+        else if (rootReinsert && o.code == HIERARCHY_REQUEST_ERR) tr.kind = "document-root-reinsert-rejected";
+    };
     if (o.code != 0) {
-        w.ref = saved;
+        if (applied) w.ref = saved;
+        bool unchanged = quickSig(w) == sig0;
+        std::string diff;
+        if (!unchanged) { std::string k1 = keyOf(w); diff = firstDiff(key0, k1); if (diff.empty()) diff = "(hidden/public digest differs)"; }
         if (o.code < 0 || !e.errs.count(o.code)) {
-            viol(opn + ":expected-" + tr.expected + ":observed-" + codeName(o.code), "");
-            // still say whether the tree was left unchanged
-            std::string k1 = keyOf(w);
-            tr.detail = (k1 == key0) ? "state unchanged" : "state CHANGED by the failing call: " + firstDiff(key0, k1);
-            if (k1 != key0) tr.kind += "+state-changed";
+            viol(opn + ":expected-" + tr.expected + ":observed-" + codeName(o.code) + (unchanged ? "" : "+state-changed"), unchanged ? "state unchanged" : "state CHANGED by the failing call: " + diff);
             return;
         }
-        std::string k1 = keyOf(w);
-        if (k1 != key0) { viol(opn + ":" + codeName(o.code) + "-raised-but-state-changed", "the call raised the specified exception but the canonical key differs: " + firstDiff(key0, k1)); return; }
+        if (!unchanged) { viol(opn + ":" + codeName(o.code) + "-raised-but-state-changed", "the call raised the specified exception but the state differs: " + diff); return; }
         tr.res = Trans::EXC_OK;
         return;
     }
@@ -260,7 +299,7 @@ static void step(World& w, const std::string& key0, const Opn& op, Trans& tr) {
     if (!invariants(w, islug, idetail)) { viol(opn + ":invariant-" + islug, idetail); return; }
     if (o.hasRet && e.ret != -2) {
         DOMNode* want = e.ret < 0 ? nullptr : w.H(e.ret);
-        if (o.ret != want) { viol(opn + ":return-value", "returned " + c.pn(o.ret) + " expected " + c.nm(e.ret)); tr.dirty = false; tr.key = keyOf(w); return; }
+        if (o.ret != want) { viol(opn + ":return-value", "returned " + c.pn(o.ret) + " expected " + c.nm(e.ret)); return; }
     }
     if (e.hasStr && o.str != e.str) { viol(opn + ":return-string", "returned '" + o.str + "' expected '" + e.str + "'"); return; }
     if (e.retData != -2 && (o.data != nullptr) != (e.retData != 0)) { viol(opn + ":return-userdata", ""); return; }
@@ -270,16 +309,18 @@ static void step(World& w, const std::string& key0, const Opn& op, Trans& tr) {
 }
 
 // ------------------------------------------------------------------------------------------------ sandbox (fork) for crash / hang probes
-struct Sbx { int status = 0; /*0 returned, 1 crashed, 2 timed out*/ std::string text; };
+struct Sbx { int status = 0; /*0 returned, 1 crashed, 2 timed out*/ std::string text, err; };
+static std::string g_tmpBase = "/dev/shm/c13";
 template <class F> static Sbx sandbox(F f, int timeout_s) {
     Sbx r;
     int fd[2];
     if (pipe(fd) != 0) { r.status = 1; r.text = "pipe failed"; return r; }
+    std::string errPath = g_tmpBase + ".sbx." + std::to_string(getpid()) + ".err";
     fflush(nullptr);
     pid_t p = fork();
     if (p == 0) {
         close(fd[0]);
-        int dn = open("/dev/null", O_WRONLY); if (dn >= 0) { dup2(dn, 2); close(dn); }
+        int dn = open(errPath.c_str(), O_WRONLY | O_CREAT | O_TRUNC, 0644); if (dn >= 0) { dup2(dn, 2); close(dn); }
         signal(SIGALRM, SIG_DFL);
         struct itimerval it; memset(&it, 0, sizeof it); setitimer(ITIMER_REAL, &it, nullptr);
         alarm(timeout_s);
@@ -292,8 +333,17 @@ template <class F> static Sbx sandbox(F f, int timeout_s) {
     while ((n = read(fd[0], buf, sizeof buf)) > 0) r.text.append(buf, n);
     close(fd[0]);
     int st = 0; waitpid(p, &st, 0);
+    {
+        FILE* ef = fopen(errPath.c_str(), "r");
+        if (ef) { char eb[600]; size_t en = fread(eb, 1, sizeof eb - 1, ef); eb[en] = 0; r.err = eb; fclose(ef); }
+        unlink(errPath.c_str());
+        size_t nl = r.err.find('\n'); if (nl != std::string::npos) r.err.resize(nl);
+        size_t sl = r.err.rfind('/'); size_t sp = r.err.find(' ');   // strip the directory of "path/file.cpp:line:col: runtime error ..."
+        if (sl != std::string::npos && (sp == std::string::npos || sl < sp)) r.err = r.err.substr(sl + 1);
+        if (r.err.compare(0, 2, "==") == 0) { size_t e2 = r.err.find("==", 2); if (e2 != std::string::npos) r.err = r.err.substr(e2 + 2); }  // strip ==pid==
+    }
     if (WIFEXITED(st) && WEXITSTATUS(st) == 0) r.status = 0;
-    else if (WIFSIGNALED(st) && WTERMSIG(st) == SIGALRM) r.status = 2;
+    else if (WIFSIGNALED(st) && WTERMSIG(st) == SIGALRM && r.err.empty()) r.status = 2;   // a sanitizer report that is still being symbolised counts as a crash
     else r.status = 1;
     return r;
 }
@@ -347,6 +397,7 @@ static void expandCase(uint64_t idx, Ctx& c) {
     std::string err;
     if (!replay(*w, s, &err)) { note("harness_replay_failed", 1); if (sf) fflush(sf); return; }
     std::string key0 = keyOf(*w);
+    uint64_t sig0 = quickSig(*w);
     if (!(hash128(key0) == s.h)) { note("harness_replay_key_mismatch", 1); if (sf) fflush(sf); return; }
     std::vector<Opn> ops;
     genOps(w->ref.d, ops);
@@ -357,11 +408,11 @@ static void expandCase(uint64_t idx, Ctx& c) {
         if (const char* kd = skipDefect(w->ref.d, op)) { slot[S_SKIP]++; skipCount[kd]++; continue; }
         if (g_prog && xv::g_worker >= 0) g_prog[idx] = (uint32_t)i;
         Trans tr;
-        step(*w, key0, op, tr);
+        step(*w, key0, sig0, op, tr);
         slot[S_TRANS]++;
         switch (tr.res) {
         case Trans::EXC_OK: if (tr.exc > 0 && tr.exc < 20) slot[S_EXC + tr.exc]++; slot[S_REJ + op.code]++; break;
-        case Trans::SAME: slot[S_SAME]++; slot[S_OK + op.code]++; break;
+        case Trans::SAME: slot[S_SAME]++; slot[S_OK + op.code]++; sig0 = quickSig(*w); break;   // the node table may have changed (e.g. an attribute value node was replaced)
         case Trans::NEW: {
             slot[S_NEW]++; slot[S_OK + op.code]++;
             H128 h = hash128(tr.key);
@@ -498,7 +549,7 @@ static void reportInstance(const State& s, const Opn& op, size_t opIdx, const st
     std::string key0 = keyOf(w);
     std::string ops = opStr(w.ref.d, op);
     Trans tr;
-    step(w, key0, op, tr);
+    step(w, key0, quickSig(w), op, tr);
     if (c.verbose) {
         printf("history (op indices %s):\n", idxStr(s.idx).c_str());
         World t2; t2.buildUniverse(); Ref r = t2.ref;
@@ -514,7 +565,7 @@ static void reportInstance(const State& s, const Opn& op, size_t opIdx, const st
                                  ",\"observed\":" + jstr(tr.observed) + ",\"detail\":" + jstr(tr.detail) + ",\"instances_in_run\":" + std::to_string(count) +
                                  ",\"depth\":" + std::to_string(s.ops.size() + 1));
     else if (!expectKind.empty())
-        c.violation("harness-not-reproduced", "\"kind_seen_in_scan\":" + jstr(expectKind) + ",\"call\":" + jstr(ops));
+        c.violation("harness-not-reproduced", "\"kind_seen_in_scan\":" + jstr(expectKind) + ",\"history\":" + histJson(s) + ",\"history_indices\":" + jstr(idxStr(s.idx, (int)opIdx)) + ",\"call\":" + jstr(ops));
 }
 
 static void reportCase(uint64_t idx, Ctx& c) {
@@ -538,12 +589,13 @@ static void reportCase(uint64_t idx, Ctx& c) {
     size_t k = idx - 1;
     if (k < KNOWN_DEFECTS.size()) {
         KnownDefect& kd = KNOWN_DEFECTS[k];
-        State s0;
-        Sbx r = runOpSandboxed(s0, kd.witness);
         World tmp; tmp.buildUniverse();
+        std::string hist = "[";
+        if (kd.pre.code >= 0) { hist += jstr(opStr(tmp.ref.d, kd.pre)); Expect e; tmp.ref.apply(kd.pre, e); }
+        hist += "]";
         std::string call = opStr(tmp.ref.d, kd.witness);
-        if (r.status != 0)
-            c.violation(std::string("crash-or-hang:") + kd.id, "\"history\":[],\"call\":" + jstr(call) + ",\"observed\":" + jstr(r.status == 2 ? "does not return (3 s limit)" : "process killed (sanitizer report / signal)") +
+        if (kd.active)   // probed once at start-up (forked sandbox)
+            c.violation(std::string("crash-or-hang:") + kd.id, "\"history\":" + hist + ",\"call\":" + jstr(call) + ",\"observed\":" + jstr(kd.observed) +
                                                                     ",\"what\":" + jstr(kd.what) + ",\"transitions_skipped_in_run\":" + std::to_string(g_total["skipped_known_defect:" + std::string(kd.id)]));
         else c.count(std::string("known_defect_not_manifesting:") + kd.id);
         return;
@@ -584,12 +636,13 @@ int main(int argc, char** argv) {
         if (!act.empty()) { g_active.assign(N_ORIG, 0); for (auto i : parseIdxList(act)) if (i < N_ORIG) g_active[i] = 1; }
     }
     std::string out = a.str("out", "/dev/stdout");
+    if (out != "/dev/stdout") g_tmpBase = out;
     int workers = (int)a.num("workers", 16);
 
     // ---- probe known crash / hang defects (decides which transitions must be skipped)
     {
         State s0;
-        for (auto& kd : KNOWN_DEFECTS) { Sbx r = runOpSandboxed(s0, kd.witness); kd.active = r.status != 0; kd.observed = r.status == 0 ? r.text : (r.status == 2 ? "hang" : "crash"); }
+        for (auto& kd : KNOWN_DEFECTS) { State sp; if (kd.pre.code >= 0) sp.ops.push_back(kd.pre); Sbx r = runOpSandboxed(sp, kd.witness); kd.active = r.status != 0; kd.observed = r.status == 0 ? r.text : (r.status == 2 ? std::string("does not return within 2 s") : "process killed: " + r.err); }
     }
 
     if (a.has("probe")) {  // development aid
@@ -707,6 +760,7 @@ int main(int argc, char** argv) {
                 auto rdOp = [&](size_t at, Opn& o) { if (fl.size() < at + 6) return false; o.code = atoi(fl[at].c_str()); o.t = atoi(fl[at + 1].c_str()); o.a = atoi(fl[at + 2].c_str()); o.b = atoi(fl[at + 3].c_str()); o.v = atoi(fl[at + 4].c_str()); o.w = atoi(fl[at + 5].c_str()); return true; };
                 uint64_t cs = strtoull(fl[2].c_str(), nullptr, 10); size_t oi = strtoull(fl[3].c_str(), nullptr, 10);
                 if (fl[0] == "S") {
+                    if (fl[1].size() != 32) { g_total["harness_malformed_side_line"]++; continue; }
                     H128 h; h.a = strtoull(fl[1].substr(0, 16).c_str(), nullptr, 16); h.b = strtoull(fl[1].substr(16).c_str(), nullptr, 16);
                     Succ s{cs, oi, Opn()};
                     if (!g_finalLayer && !rdOp(4, s.op)) continue;
